@@ -2,3 +2,7 @@
 (* true: Stream.Flush only ever SETS inFallbackState (sticky: a stream switches from the queue to the socket once);
    false: Flush assigns it from the current buffer (the stream returns to the queue when shm recovers). *)
 Definition sw_fallback_sticky : bool := true.
+(* true: the closeNotifyCh branch of Stream.readMore moves pending data into recvBuf before its length test. *)
+Definition sw_close_branch_moves : bool := true.
+(* true: the entry test of Stream.readMore moves pending data again before it reports the end of the stream. *)
+Definition sw_entry_rechecks : bool := true.
